@@ -240,7 +240,10 @@ pub fn judge_step(
                     let acceptable = matches!(decode, DecodeExp::MustFail | DecodeExp::Either) && !e.is_checksum();
                     if !acceptable {
                         // with decoding off no payload-level error may be raised: also C07
-                        let props = if matches!(decode, DecodeExp::NotRequested) { vec!["C05", "C08", "C07"] } else { vec!["C05", "C08"] };
+                        let mut props = if matches!(decode, DecodeExp::NotRequested) { vec!["C05", "C08", "C07"] } else { vec!["C05", "C08"] };
+                        if e.is_checksum() {
+                            props.push("C02"); // the two values agree, yet a checksum error
+                        }
                         f.push((
                             props,
                             "asm.unfragmented-rejected".into(),
@@ -269,7 +272,7 @@ pub fn judge_step(
                 "a non-final fragment yielded Complete".into(),
             )),
             Out::Err(e) => f.push((
-                vec!["C05"],
+                if e.is_checksum() { vec!["C05", "C02"] } else { vec!["C05"] },
                 "asm.rejects-good-fragment".into(),
                 format!("a fragment that opens / directly continues the open group was rejected: {}", e.show()),
             )),
@@ -300,7 +303,10 @@ pub fn judge_step(
             Out::Err(e) => {
                 let acceptable = matches!(decode, DecodeExp::MustFail | DecodeExp::Either) && !e.is_checksum();
                 if !acceptable {
-                    let props = if matches!(decode, DecodeExp::NotRequested) { vec!["C05", "C07"] } else { vec!["C05"] };
+                    let mut props = if matches!(decode, DecodeExp::NotRequested) { vec!["C05", "C07"] } else { vec!["C05"] };
+                    if e.is_checksum() {
+                        props.push("C02");
+                    }
                     f.push((
                         props,
                         "asm.rejects-good-fragment".into(),
